@@ -104,7 +104,8 @@ def _fam_foreign(rnd, which, rep):
     lines = ['#include "axllib"', SENSOR.rstrip("\n"), "import from SingleInteger, String;"]
     calls = []
     for n, h in enumerate(hs):
-        f1, f2 = "c08%s%d_%da" % (which.lower(), rep, n), "c08%s%d_%db" % (which.lower(), rep, n)
+        sep = "_" if which == "A" else "x"       # `_' is the escape character: the files of set A carry warnings
+        f1, f2 = "c08%s%d%s%da" % (which.lower(), rep, sep, n), "c08%s%d%s%db" % (which.lower(), rep, sep, n)
         lines.append("import {\n  %s: SingleInteger -> SingleInteger;\n  %s: (SingleInteger, String) -> SingleInteger;\n} from Foreign %s;"
                      % (f1, f2, _hdr(h)))
         calls.append('%s(%d) + %s(%d, "%s")' % (f1, rnd.randrange(1000), f2, rnd.randrange(1000), "s%d" % rnd.randrange(10 ** 6)))
@@ -152,12 +153,22 @@ def _fam_lits(rnd, rep):
 def _fam_prag(rnd, rep):
     a, b = ("C08FlagA", "C08FlagB") if rep == 1 else ("C08FlagB", "C08FlagA")
     return ('#include "axllib"\n#assert %s\n#assert %s\n#unassert %s\n#int verbose\n' % (a, b, b) + SENSOR +
-            "import from SingleInteger;\n#pile\nh(x: SingleInteger): SingleInteger ==\n  y := x + %d\n  y * %d\n#endpile\n"
-            'print << h %d << newline;\n#libraryDir "/c08/no/such/libdir%d"\n#includeDir "/c08/no/such/incdir%d"\n#assert C08FlagLate%d\n'
-            % (rnd.randrange(100), 1 + rnd.randrange(9), rnd.randrange(100), rep, rep, rep))
+            'import from SingleInteger;\n#libraryDir "/c08/no/such/libdir%d"\n#includeDir "/c08/no/such/incdir%d"\n'
+            "#pile\nh(x: SingleInteger): SingleInteger ==\n  y := x + %d\n  y * %d\nprint << h %d << newline\n#endpile\n#assert C08FlagLate%d\n"
+            % (rep, rep, rnd.randrange(100), 1 + rnd.randrange(9), rnd.randrange(100), rep))
 
 
-def family_files(seed, tiny_corpus):
+def _fam_tiny(rnd, rep):
+    """A program that loads no library at all (after axllib/test/triv1): it declares the few types it needs itself."""
+    more = "" if rep == 1 else 'import { putchar: Char -> () } from Foreign C "<stdio.h>";\n'
+    return ("export { Type: Type; Tuple: Type -> Type; ->: (Tuple Type, Tuple Type) -> Type; Literal: Type; String: Type%s }\n"
+            'import { puts: String -> () } from Foreign C "<stdlib.h>";\n%s'
+            "string(s: Literal): String == s pretend String;\n"
+            '#if C08FlagA\nputs "C08FlagA is asserted in this file";\n#endif\n#if C08FlagB\nputs "C08FlagB is asserted in this file";\n#endif\n'
+            'puts "%d Skidoo %d";\n' % ("; Char: Type" if rep == 2 else "", more, rnd.randrange(100), rnd.randrange(10 ** 6)))
+
+
+def family_files(seed, tiny_corpus=None):
     """(kind, rep) -> Input for every slot of DetCfg!Slots."""
     rnd = random.Random(seed * 31 + 5)
     notry = [f for f in progen.ALL_FEATURES if f != "try"]
@@ -167,10 +178,8 @@ def family_files(seed, tiny_corpus):
         t = render.render(progs[i])
         return t.replace('#include "axllib"\n', '#include "axllib"\n' + SENSOR, 1)
     texts = {}
-    tc = sorted(tiny_corpus, key=lambda c: c[0])
-    picks = rnd.sample(tc, 2)
     for rep in (1, 2):
-        texts[("tiny", rep)] = picks[rep - 1][1]
+        texts[("tiny", rep)] = _fam_tiny(rnd, rep)
         texts[("clean", rep)] = prog_text(rep - 1)
         texts[("lits", rep)] = _fam_lits(rnd, rep)
         texts[("fhdrA", rep)] = _fam_foreign(rnd, "A", rep)
@@ -183,12 +192,12 @@ def family_files(seed, tiny_corpus):
                          'w2: SingleInteger := 4;\nprint << w2 << newline;\n')
     out = {}
     for (kind, rep), t in texts.items():
-        origin = "family:%s%d" % (kind, rep) + (":" + os.path.relpath(picks[rep - 1][0], vlib.REPO) if kind == "tiny" else "")
+        origin = "family:%s%d" % (kind, rep)
         out[(kind, rep)] = Input("f_%s%d.as" % (kind, rep), t, "fam", origin)
     return out
 
 
-def family_groups(seed, tier, batches, tiny_corpus):
+def family_groups(seed, tier, batches, tiny_corpus=None):
     """The pool (every representative, compiled separately and in pool order) and the batch compositions chosen for the tier
     from the BATCH export of DetCfg: every two-file batch, and a seeded sample of the longer ones."""
     files = family_files(seed, tiny_corpus)
@@ -361,6 +370,7 @@ class Runner(object):
         self.keep = os.path.join(workdir, "keep")
         os.makedirs(self.keep, exist_ok=True)
         self.kept = {}            # (input, digest tuple) -> path of a copy (detail of a disagreement only)
+        self.kept_n = {}
         self.commands = {}        # (gid, cfg id) -> how the run was made (for the replay file)
         self.nruns = 0
         self.paths_recorded = set()
@@ -503,13 +513,14 @@ class Runner(object):
         def keep(key, dg, data):
             kk = (key, tuple(dg))
             with self.lock:
-                if kk not in self.kept and len(self.kept) < 20000 and data is not None:
-                    variants = sum(1 for (k2, _) in self.kept if k2 == key)
-                    if variants < 3:
-                        kp = os.path.join(self.keep, "%s.%d" % (key.replace("|", ".").replace(":", "-"), variants))
-                        with open(kp, "wb") as fh:
-                            fh.write(data)
-                        self.kept[kk] = kp
+                # every distinct content of an input is kept (reports and signatures of differences need both sides)
+                if kk not in self.kept and len(self.kept) < 60000 and data is not None:
+                    variants = self.kept_n.get(key, 0)
+                    self.kept_n[key] = variants + 1
+                    kp = os.path.join(self.keep, "%s.%d" % (key.replace("|", ".").replace(":", "-"), variants))
+                    with open(kp, "wb") as fh:
+                        fh.write(data)
+                    self.kept[kk] = kp
         last_pos = {n: k for k, n in enumerate(reached)}
         for k, n in enumerate(reached):
             # every occurrence reports its messages; the files on disk are those of the last occurrence
@@ -587,7 +598,8 @@ def plan(confs, groups, tier, seed):
                      cid(gc=gc("none", 1000, 500)), cid(gc=gc("-Wgc", 1000, 999), aslr="on", env="polluted")]
         by_class = {"tiny": [cid(gc=gc("none", 1, 0)), cid(gc=gc("-Wgc", 2, 1)), cid(gc=gc("none", 3, 1)), cid(gc=gc("none", 7, 6), aslr="on"),
                              cid(gc=gc("none", 50, 25), inv="batch")],
-                    "gen": [], "corpus": []}
+                    "gen": [], "corpus": [], "fam": []}
+        fam_pool = [cid(), cid(rep=2), cid(aslr="on"), cid(inv="batch"), cid(aslr="on", inv="batch")]
     else:
         common = base + unforced + rnd.sample([c for c in far if c["cfg"]["gc"]["k"] == 0], 40)
         common += [c for c in star + far if c["cfg"]["gc"]["k"] >= 1000 and c["dist"] <= 1]
@@ -597,13 +609,26 @@ def plan(confs, groups, tier, seed):
         mid_k = [c for c in confs if 50 <= c["cfg"]["gc"]["k"] < 1000]
         by_class = {"tiny": [c["id"] for c in small_k if c["dist"] <= 1] + [c["id"] for c in rnd.sample([c for c in small_k if c["dist"] >= 2], 12)]
                             + [c["id"] for c in mid_k if c["dist"] <= 1],
-                    "gen": [c["id"] for c in mid_k if c["dist"] <= 1 and c["cfg"]["gc"]["flag"] == "none"], "corpus": []}
+                    "gen": [c["id"] for c in mid_k if c["dist"] <= 1 and c["cfg"]["gc"]["flag"] == "none"], "corpus": [], "fam": []}
+        fam_pool = None       # the pool of the family gets every unforced configuration chosen above
+    batch_cfgs = sorted(c["id"] for c in confs if c["cfg"]["inv"] == "batch" and c["cfg"]["gc"]["k"] == 0 and c["dist"] >= 2)
     for i in extra_ids + [x for v in by_class.values() for x in v]:
         if i not in by_id:
             raise vlib.MachineryError("configuration %s is not in the TLC export of DetCfg" % i)
     pairs = []
-    for g in groups:
-        cs = list(common) + [by_id[i] for i in extra_ids] + [by_id[i] for i in by_class[g.cls]]
+    for gi, g in enumerate(groups):
+        if g.batch_only:
+            # a batch composition: one invocation under the baseline's batched neighbour; some also under a second batched
+            # configuration (quick: every fourth, ASLR on; thorough: every one, a seeded unforced configuration)
+            cs = [by_id[cid(inv="batch")]]
+            if tier == "quick":
+                cs += [by_id[cid(aslr="on", inv="batch")]] if gi % 4 == 0 else []
+            else:
+                cs.append(by_id[rnd.choice(batch_cfgs)])
+        elif g.cls == "fam" and fam_pool is not None:
+            cs = [by_id[i] for i in fam_pool]
+        else:
+            cs = list(common) + [by_id[i] for i in extra_ids] + [by_id[i] for i in by_class[g.cls]]
         seen = set()
         for c in cs:
             if c["id"] in seen or g.cls not in c["classes"]:
@@ -628,7 +653,7 @@ def cost_file(inp, c):
     kb = len(inp.text) / 1000.0
     if inp.cls == "tiny":
         return 0.006 + ((1.0 + 2.3 * kb) / k if k else 0)
-    unit, per = {"gen": (0.09, 15000.0), "corpus": (0.05, 10000.0)}[inp.cls]
+    unit, per = {"gen": (0.09, 15000.0), "corpus": (0.05, 10000.0), "fam": (0.07, 12000.0)}[inp.cls]
     return unit * (1 + (per / k if k else 0))
 
 
@@ -646,6 +671,8 @@ def run_all(runner, pairs, nproc):
         for pi in pis:
             g, c = pairs[pi]
             names = [i.name for i in g.inputs]
+            if g.batch_only and c["cfg"]["inv"] != "batch":
+                raise vlib.MachineryError("batch composition %s planned under a separate-invocation configuration" % g.gid)
             for files in ([names] if c["cfg"]["inv"] == "batch" else [[n] for n in names]):
                 jobs.append((pi, files))
         texts = {i.name: i for g, _ in pairs for i in g.inputs}
@@ -676,27 +703,44 @@ def run_all(runner, pairs, nproc):
             per_pair[pi].append(r)
     by_input = {}
 
-    def emit(c, key, dg):
-        by_input.setdefault(key, []).append((c["dist"], c["id"], {"ev": "Observe", "input": key, "cfg": c["cfg"], "digest": dg}))
+    def emit(c, key, dg, kind, view="text", run=""):
+        by_input.setdefault(key, []).append((c["dist"], c["id"], {"ev": "Observe", "input": key, "kind": kind, "proj": view, "run": run,
+                                                                  "cfg": c["cfg"], "digest": dg}))
+    # how many batched runs a group has: the batch as an input of its own needs two of them to say anything
+    nbatch = {}
+    for g, c in pairs:
+        if c["cfg"]["inv"] == "batch":
+            nbatch[g.gid] = nbatch.get(g.gid, 0) + 1
+    sep_rc = {}      # (configuration id, file) -> status of its separate compilation
     for pi, (g, c) in enumerate(pairs):
         rs = per_pair[pi]
         batch = c["cfg"]["inv"] == "batch"
+        own = nbatch.get(g.gid, 0) >= 2
         complete = len(rs) == (1 if batch else len(g.inputs))
         rcsum = 0
         for r in rs:
             rcsum += r["rc"] if r["rc"] >= 0 else 1000 - r["rc"]
             complete = complete and len(r["reached"]) == len(r["files"])
-            for (n, kind), dg in r["obs"].items():
-                emit(c, "%s|%s" % (n, kind), dg)
-                if batch:
+            if not batch and len(r["reached"]) == 1:
+                sep_rc[(c["id"], r["files"][0])] = r["rc"]
+            for n, kind, view, dg in r["obs"]:
+                vk = kind if view == "text" else "%s:%s" % (kind, view)
+                emit(c, "%s|%s" % (n, vk), dg, kind, view, g.gid)
+                if batch and own and view == "text":
                     # the batch as a whole is an input too: the same multi-file command line must reproduce itself
-                    emit(c, "%s|%s|in-batch:%s" % (n, kind, g.gid), dg)
+                    emit(c, "%s|%s|in-batch:%s" % (n, vk, g.gid), dg, kind, view, g.gid)
         # the exit status of the group, comparable between one invocation and several only as "did any file fail"
         # (a fatal error ends a batch with status 1 whatever was counted before); only if every file was started
         if complete:
-            emit(c, "%s|exit" % g.gid, [1 if rcsum else 0, 0, 0, 0])
-        if batch and rs:
-            emit(c, "%s|exit|in-batch:%s" % (g.gid, g.gid), [rcsum, 0, 0, 0])
+            emit(c, "%s|exit" % g.gid, [1 if rcsum else 0, 0, 0, 0], "exit", "text", g.gid)
+        if batch and rs and own:
+            emit(c, "%s|exit|in-batch:%s" % (g.gid, g.gid), [rcsum, 0, 0, 0], "exit", "text", g.gid)
+    # a batch composition of the family has no separate runs of its own: its files were compiled separately in the pool
+    base = next((c for _, c in pairs if c["dist"] == 0), None)
+    for g in {id(g): g for g, _ in pairs if g.batch_only}.values():
+        rcs = [sep_rc.get((base["id"], i.name)) for i in g.inputs] if base else [None]
+        if all(x is not None for x in rcs):
+            emit(base, "%s|exit" % g.gid, [1 if any(rcs) else 0, 0, 0, 0], "exit", "text", "fampool")
     out = {}
     for k, lst in by_input.items():
         lst.sort(key=lambda t: (t[0], t[1]))
